@@ -4,9 +4,8 @@ From SK Require Import Model.Collection Model.Catalog.
 Import ListNotations.
 Open Scope Z_scope.
 
-Definition x_fd_limit (depth : Z) : Z := depth.
-Definition x_fd_cap {A} (key : A -> Z) (limit : Z) (l : list A) : list A :=
-  py_take (limit) (sort_by key l).
+Definition x_fd_cap {A} (key : A -> Z) (depth : Z) (l : list A) : list A :=
+  py_take (depth) (sort_by key l).
 
 Definition x_fd_skips (isfile : bool) : bool := (negb isfile).
 Definition x_fd_live_suffix : list Z := [46; 108; 111; 103].
